@@ -15,7 +15,8 @@ MANIFEST = dict(
     text="Coq theorems on the model of hash_object + Task._compute_hashes/_checksum (Model/Hash.v): "
          "C07_seed_independent (the checksum of a task is the same for any iteration order of every set, any "
          "insertion order of every dict and any object identities of its inputs, whenever `<` is a strict total order "
-         "on the elements of each set/dict and the inputs have no reference cycles), C07_sorted_order_free (CPython's "
+         "on the elements of each set/dict and the inputs have no reference cycles), C07_seed_independent_deep (the same "
+         "with sets re-ordered at every nesting level at once: nested frozensets forming a chain), C07_sorted_order_free (CPython's "
          "small-list sort returns one list for all input orders under a total order), C07_checksum_of_digests, and "
          "C07_refuted_frozenset_of_frozensets (a frozenset of incomparable frozensets gives two checksums). "
          "Correspondence: generated values hashed and used as task input in fresh interpreters under several "
